@@ -310,7 +310,9 @@ struct UPtrAdapter {
 		switch(op) {
 		case 0: a = frg::make_unique<Elem>(TrackedAlloc(&s.as), s.next); s.ma = {true, s.next++}; c.op("a=make_unique(v)"); break;
 		case 1: b = frg::make_unique<Elem>(TrackedAlloc(&s.as), s.next / 1000, s.next % 1000); s.mb = {true, s.next++}; c.op("b=make_unique(x,y)"); break;
-		case 2: a = std::move(b); std::swap(s.ma, s.mb); c.op("a=move(b)"); break; // swap-based: b receives a's old pointer
+		case 2: { auto old = s.ma; a = std::move(b); s.ma = s.mb; // the moved-from b is either empty (like std::unique_ptr) or holds a's old object (swap-based
+			if((bool)b && old.on) s.mb = old; else s.mb = {};       // assignment): both leave every object owned exactly once, neither is demanded
+			c.op("a=move(b)"); break; }
 		case 3: s.a.reset(new U(std::move(b))); s.ma = s.mb; s.mb = {}; c.op("a=U(move(b))"); break;
 		case 4: swap(a, b); std::swap(s.ma, s.mb); c.op("swap(a,b)"); break;
 		case 5: { Elem *p = a.release(); c.op("a.release()"); if((p != nullptr) != s.ma.on) c.fail("release", "release() result"); if(p) { if(p->get() != s.ma.v) c.fail("value", "released object"); p->~Elem(); TrackedAlloc(&s.as).free(p); } s.ma = {}; break; }
@@ -458,6 +460,51 @@ static void polymorphic_owner_case(Rng &r) {
 	expect_no_elems("after destroying unique_ptr<Base> owners of derived objects (members added by the derived class must be destroyed through the virtual destructor)");
 	expect_no_blocks(as, "after destroying unique_ptr<Base> owners");
 	count("polymorphic_owner_cases");
+}
+
+// ---- owners whose source lives inside the value they currently own: the pop-front idiom `head = std::move(head->next)` on a singly
+// linked list whose links are holders. The assignment destroys the old head node, and with it the (by then moved-from) source.
+// Compared with the same script on the standard types; the nodes count themselves.
+template<int Tag> struct LiveCount { static inline long live = 0; LiveCount() { live++; } LiveCount(const LiveCount &) { live++; } ~LiveCount() { live--; } };
+struct ONodeF : LiveCount<1> { frg::optional<std::unique_ptr<ONodeF>> next; int value = 0; };
+struct ONodeS : LiveCount<2> { std::optional<std::unique_ptr<ONodeS>> next; int value = 0; };
+struct UNode : LiveCount<5> { frg::unique_ptr<UNode, TrackedAlloc> next; int value = 0; explicit UNode(TrackedAlloc a) : next(a) {} };
+static void owner_inside_own_value_case(Rng &r) {
+	auto diff = [&](const char *what, bool ok, const std::string &trace) { if(!ok) fail17("source-inside-own-value", std::string(what) + " disagrees with the standard type after [" + trace + " ]"); return ok; };
+	// optional<unique_ptr<node>>
+	{
+		frg::optional<std::unique_ptr<ONodeF>> fh; std::optional<std::unique_ptr<ONodeS>> sh; std::string trace; long len = 0;
+		for(int i = 0; i < 14; i++) {
+			if(len == 0 || (len < 4 && r.chance(1, 2))) {
+				auto fn = std::make_unique<ONodeF>(); fn->value = i; if(fh) fn->next = std::move(fh); fh = std::move(fn);
+				auto sn = std::make_unique<ONodeS>(); sn->value = i; if(sh) sn->next = std::move(sh); sh = std::move(sn);
+				len++; trace += " push";
+			} else { fh = std::move((*fh)->next); sh = std::move((*sh)->next); len--; trace += " head=move(head->next)"; }
+			if(!diff("optional<unique_ptr<node>> list", (bool)fh == sh.has_value() && LiveCount<1>::live == LiveCount<2>::live && (!fh || !sh || (*fh)->value == (*sh)->value), trace)) break;
+		}
+	}
+	if(LiveCount<1>::live != 0 || LiveCount<2>::live != 0) { fail17("source-inside-own-value", strf("optional list: %ld frg-side and %ld std-side nodes alive after both lists were destroyed", LiveCount<1>::live, LiveCount<2>::live)); LiveCount<1>::live = LiveCount<2>::live = 0; }
+	// (no variant list: with std::variant the same statement is undefined once the alternatives differ - libstdc++ destroys the old
+	// alternative, and with it the source, before it reads the source - so there is no reference behaviour to compare with)
+	// frg::unique_ptr<node> (reference: the length of the list the script describes)
+	{
+		AllocState as; as.owner = "unique_ptr list"; TrackedAlloc al(&as);
+		{
+			frg::unique_ptr<UNode, TrackedAlloc> head(al); long len = 0; std::string trace;
+			for(int i = 0; i < 14; i++) {
+				if(len == 0 || (len < 4 && r.chance(1, 2))) { auto n = frg::make_unique<UNode>(al, al); n->value = i; n->next = std::move(head); head = std::move(n); len++; trace += " push"; }
+				else { head = std::move(head->next); len--; trace += " head=move(head->next)"; }
+				if(LiveCount<5>::live != len || (bool)head != (len > 0)) {
+					std::string msg = strf("frg::unique_ptr list of %ld nodes: %ld nodes alive, head %s after [%s ]", len, LiveCount<5>::live, head ? "set" : "null", trace.c_str());
+					if(g_lifetime_armed) violation("C16:lifetime:unique_ptr:source-inside-own-value", msg); else count("unarmed:lifetime:unique_ptr:source-inside-own-value");
+					break;
+				}
+			}
+		}
+		if(LiveCount<5>::live != 0) { if(g_lifetime_armed) violation("C16:lifetime:unique_ptr:source-inside-own-value:leak", strf("%ld list nodes still alive after the frg::unique_ptr that owned the list was destroyed", LiveCount<5>::live)); LiveCount<5>::live = 0; as.live.clear(); }
+		else expect_no_blocks(as, "after destroying a frg::unique_ptr list");
+	}
+	count("owner_inside_own_value_cases");
 }
 
 // allocation.hpp helpers: construct / construct_n pair allocate(sizeof(T) [* n]) with destruct / destruct_n (deallocate with the same size)
@@ -644,7 +691,7 @@ int main(int argc, char **argv) {
 			if(!want_case(i)) { r.next(); continue; }
 			begin_case("tuple", i);
 			Rng rr(r.next());
-			guarded(g_prop.c_str(), [&] { tuple_case(rr); alloc_helpers_case(rr); polymorphic_owner_case(rr); });
+			guarded(g_prop.c_str(), [&] { tuple_case(rr); alloc_helpers_case(rr); polymorphic_owner_case(rr); owner_inside_own_value_case(rr); });
 			note_distinct(mix(77, rr.s[1]));
 		}
 		begin_case("tuple", n);
